@@ -39,7 +39,7 @@ ASSUMPTIONS = [
     "default callables are deterministic functions of (call index, current parameters); no two columns share a callable",
     "primary key defaults other than autoincrement, Sequence defaults, insert().values() mixed with executemany "
     "parameters, insert-from-select defaults and multi-table UPDATE are not covered",
-    "ORM: an attribute assigned its current value counts as not supplied (no net change), attributes are plain "
+    "ORM: `del obj.attr` on a loaded attribute counts as supplying None; an attribute assigned its current value counts as not supplied (no net change), attributes are plain "
     "integers (no SQL expressions as attribute values, no evaluates_none types, no version counters)",
 ]
 ANCHORS = [
@@ -138,6 +138,12 @@ def gen_cases(rng, tier):
             ups = [_pset(1, [pa, "value"]), _pset(2, [pb, "value"], base=17)]
             cases.append({"in": [OP_CUPD, cols, base, ups, [0]], "kind": "upd2"})
             cases.append({"in": [OP_OUPD, cols, base, ups, [0]], "kind": "orm-upd2"})
+    # ---- ORM UPDATE where None is realised as `del obj.attr` ----
+    for k1, k2 in itertools.product(kinds, repeat=2):
+        if tier != "thorough" and (k1 + k2) % 2:
+            continue
+        for pats in (("none", "omit"), ("none", "value"), ("none", "none")):
+            cases.append({"in": [OP_OUPD, mk_cols([k1, k2]), _base_rows(1, 2), [_pset(1, pats)], [1]], "kind": "orm-upd-del"})
     # ---- insert(t).values([row, row, ...]): per row and column present / None / omitted ----
     mkinds = [NONE, SCALAR, CALLABLE, SQL, SERVER]
     for k1 in mkinds:
@@ -404,7 +410,10 @@ def impl(c):
                             d = _pd(p)
                             o = s.get(Obj, d.pop("id"))
                             for k, v in d.items():
-                                setattr(o, k, v)
+                                if v is None and flags[0] == 1:
+                                    delattr(o, k)  # `del obj.attr` persists NULL like an assigned None (f879cdb)
+                                else:
+                                    setattr(o, k, v)
                             objs.append(o)
                     s.flush()
                     info["orm_state"] = [[getattr(o, n) for n in names] for o in objs]
@@ -434,6 +443,9 @@ def impl(c):
             key = 0 if name in ("id", "bid", "t_id") else int(name[3:] if name.startswith("v_c") else name[1:])
             obs = [1, int(m.group(2) or 0), key]
             rows = None
+        except Exception as ex:  # any other failure of the statement / flush is an observation, not a crash
+            obs = [3]
+            info["error"] = "%s: %s" % (type(ex).__name__, str(ex)[:200])
         finally:
             conn.rollback()
     _LAST["case"] = c["in"]
@@ -450,6 +462,8 @@ def _check(inp, obs, info):
     many = op in (OP_CINS, OP_CUPD)  # executemany forms whose column keys come from the first set
     keysets = [frozenset(k for k, _ in p) for p in psets]
     kinds = {k: d[0] for k, d in cols}
+    if obs[0] == 3:
+        return "unexpected error: %s" % info.get("error")
     if op in (OP_PKPRE, OP_PKFALSY):
         return _check_pk(inp, obs, info)
     if obs[0] == 2:
